@@ -275,7 +275,10 @@ def _history(E, length):
     return 'ok'
 
 
-SCOPED = ['5k', '2k+1', '1e999', '3%', 'x+2k', 'k', '2k*k', '7']
+SCOPED = ['5k', '2k+1', '1e999', '3%', 'x+2k', 'k', '2k*k', '7', '1||-1', 'ln(0)', '[1,2]/0', 'cot(0)', '1/(x-x)', 'x||0']
+# outcomes that are the same in every scope and after every history (the error CLASS is part of the outcome)
+ABSOLUTE = {'1||-1': ('error', 'CalcZeroDivisionError'), 'ln(0)': ('error', 'CalcZeroDivisionError'), '[1,2]/0': ('error', 'CalcZeroDivisionError'),
+            'cot(0)': ('error', 'CalcZeroDivisionError'), '1/(x-x)': ('error', 'CalcZeroDivisionError'), 'x||0': ('value', repr(complex(0.0)))}
 SCOPES = [dict(suffixes={'k': 1000.0, '%': 0.01}, allow_inf=False), dict(suffixes={'k': 1024.0, '%': 0.5}, allow_inf=False), dict(suffixes={'%': 0.01}, allow_inf=False),
           dict(suffixes={'k': 1000.0, '%': 0.01}, allow_inf=True)]
 
@@ -286,6 +289,8 @@ def h_scope_history(E, length):
     import mitxgraders.helpers.calc.expressions as X
     from mitxgraders.exceptions import MITxError
     X.PARSER.cache = {}
+    import numpy as _np
+    errstate_before = dict(_np.geterr())
 
     def outcome(f):
         try:
@@ -300,6 +305,10 @@ def h_scope_history(E, length):
         got = outcome(lambda: X.evaluator(s, env, X.DEFAULT_FUNCTIONS, sc['suffixes'], allow_inf=sc['allow_inf']))
         want = outcome(lambda: X.MathParser().parse(s).eval(env, X.DEFAULT_FUNCTIONS, sc['suffixes'], allow_inf=sc['allow_inf']))
         E.check('value-independent-of-history', got == want)
+        if s in ABSOLUTE:
+            E.check('error-class-independent-of-history', got == ABSOLUTE[s])
+    import numpy as np
+    E.check('floating-point-error-handling-untouched', dict(np.geterr()) == errstate_before)
     return 'ok'
 
 
